@@ -5,7 +5,7 @@
    the arithmetic then yields NaN/inf exactly as the code does.  The only panic is the `unwrap` of
    `gaussian_elimination(&matrix, &rhs, 1e-5)` in PolynomialRegression::fit. *)
 From Coq Require Import ZArith List Bool Arith.
-From SV Require Import Base.Num Base.Outcome Base.Mat Model.Subst Model.Gauss.
+From SV Require Import Base.Num Base.Outcome Base.Mat Model.Subst Model.Gauss Gen.Consts.
 Import ListNotations.
 
 Section Regress.
@@ -55,7 +55,8 @@ Section Regress.
   Definition moment_rhs (order : nat) (x y : list T) : vec T :=
     vretab (S order) (fun i => lsum (map (fun p => nmul (fst p) (npowi (snd p) (Z.of_nat i))) (combine y x))).
   (* the literal 1e-5 in `gaussian_elimination(&matrix, &rhs, 1e-5)` *)
-  Definition poly_tol : T := nofdec 1 (-5).
+  (* the pivot tolerance literal passed to gaussian_elimination, re-read from polynomial.rs on every run *)
+  Definition poly_tol : T := nofdec (fst poly_regression_pivot_tol) (snd poly_regression_pivot_tol).
 
   Definition poly_fit_tol (tol : T) (order : nat) (x y : list T) : res lmodel :=
     let n := S order in
